@@ -1,3 +1,4 @@
+import Std.Data.HashMap
 /- Line-protocol helpers shared by all driver families (core only). -/
 namespace Setec.Driver
 
@@ -46,5 +47,8 @@ def natList (s : String) : Option (List Nat) :=
   if s.isEmpty then some [] else (s.splitOn ",").mapM String.toNat?
 
 def showNatList (xs : List Nat) : String := joinWith "," (xs.map toString)
+
+def bump (m : Std.HashMap String Nat) (k : String) : Std.HashMap String Nat :=
+  m.insert k (m.getD k 0 + 1)
 
 end Setec.Driver
